@@ -252,9 +252,11 @@ def run_sweeps(ctx, exe, jobs, workers=16):
     def one(job):
         t, L, lo, hi = job
         rc, out = ctx.run_exe(exe, input_text=f"sweep {t} {L} {lo:x} {hi:x}\n", timeout=3000)
-        f = dict(x.split("=", 1) for x in out.split() if "=" in x)
+        toks = out.split()
+        f = dict(x.split("=", 1) for x in toks if "=" in x and not x.startswith("fail="))
+        fails = [x[5:] for x in toks if x.startswith("fail=")]
         try:
-            return job, int(f["checked"]), int(f["bad"]), f.get("first")
+            return job, int(f["checked"]), int(f["bad"]), fails
         except (KeyError, ValueError):
             return job, 0, -1, out[-200:]
     with ThreadPoolExecutor(max_workers=workers) as ex:
@@ -273,14 +275,14 @@ def report_sweeps(ctx, results):
         if bad < 0:
             ctx.tie_broken("c12-sweep-run", f"sweep {t} {L} {lo:x} {hi:x} failed: {first}")
             continue
-        if bad:
-            bits, what, a, c, detail = first.split(":", 4)
+        for fail in (first if bad else []):
+            cnt, bits, what, a, c, detail = fail.split(":", 5)
             b = int(bits, 16)
             ctx.violation(key_for(t, L, what),
-                          f"llr<{TYPES[t]['name']},{L}>: {what} at sample {value_str(t, b)} (bits {bits}); {bad} of {checked} patterns "
-                          f"in [{lo:x},{hi:x}) fail the C++ oracle",
+                          f"llr<{TYPES[t]['name']},{L}>: {what} at sample {value_str(t, b)} (bits {bits}); {cnt} of {checked} patterns "
+                          f"in [{lo:x},{hi:x}) fail this clause of the C++ oracle",
                           dict(case=f"llr {t} {L} {bits}", sample=value_str(t, b), actual=[int(a), int(c)], detail=detail,
-                               sweep=f"sweep {t} {L} {lo:x} {hi:x}", failing_in_range=bad))
+                               sweep=f"sweep {t} {L} {lo:x} {hi:x}", failing_in_range=int(cnt)))
     ctx.evaluations += total
     return summary
 
